@@ -1,2 +1,203 @@
-(* C17 — placeholder while the models are being validated *)
-From SID Require Import BitAlt.
+(* C17 — Binary-subdivision altitude IDs cover the voxel and stay inside the height range.
+   Only statements, `exact` proofs and Print Assumptions live here. Models: theories/BitAlt.v (bit-exact binary64 model of calcBitIndex,
+   convertVerticallIDToBit, convertBitToVerticalID and the exported conversions), BitAltRef.v (exact integer reference + run-time checkers),
+   BitAltR.v (the same loop over the reals), BitAltF.v / BitAltV.v / BitAltT.v (Flocq side).
+   Vocabulary: geF a b = Go's `a >= b` on float64; val x = the real value of a finite float (fin x); calc_bit_index = calcBitIndex;
+   vid_to_bit = convertVerticallIDToBit; bit_to_vid = convertBitToVerticalID; vox_alt f v = float64(f)*2^25/2^v. *)
+From Coq Require Import ZArith Reals Lia Floats List Bool String.
+From Flocq Require Import Core.
+From SID Require Import Base Str Ids F64 ExactRef PointF BitAlt BitAltRef BitAltR BitAltF BitAltV BitAltT.
+Import ListNotations.
+Open Scope Z_scope.
+
+(* ---------- 1. inside 0 .. 2^zoom-1, always (clamping): every float64 altitude and bound, NaN and infinities included ---------- *)
+Theorem C17_index_always_in_range : forall (alt : pfloat) zoom (mx mn : pfloat), 0 <= zoom -> 0 <= calc_bit_index alt zoom mx mn < 2 ^ zoom.
+Proof. exact calc_bit_index_range. Qed.
+Print Assumptions C17_index_always_in_range.
+
+Theorem C17_every_emitted_index_in_range : forall v f oz (mx mn : pfloat) x, 0 <= oz -> In x (vid_to_bit v f oz mx mn) -> 0 <= x < 2 ^ oz.
+Proof. exact vid_to_bit_range. Qed.
+Print Assumptions C17_every_emitted_index_in_range.
+
+(* ---------- 2. monotone in the altitude (Go's >= is transitive on all of float64), whatever the height range ---------- *)
+Theorem C17_comparison_transitive : forall a b c : pfloat, geF a b = true -> geF b c = true -> geF a c = true.
+Proof. exact geF_trans. Qed.
+Print Assumptions C17_comparison_transitive.
+
+Theorem C17_index_monotone : forall (a1 a2 : pfloat) zoom (mx mn : pfloat), geF a2 a1 = true ->
+  calc_bit_index a1 zoom mx mn <= calc_bit_index a2 zoom mx mn.
+Proof. exact calc_bit_index_mono. Qed.
+Print Assumptions C17_index_monotone.
+
+(* ---------- 3. forward direction: the emitted list is the contiguous run from the cell of the bottom altitude to the cell of the top altitude.
+   For every vertical zoom 0..35, every index (both signs, far beyond the valid ones), every output zoom, EVERY height range: the two faces of
+   the voxel are computed without rounding, the list has no duplicates and is, as a set, exactly lo..hi, inside 0..2^zoom-1. ---------- *)
+Theorem C17_voxel_faces_exact : forall f v, 0 <= v <= 35 -> Z.abs f < 2 ^ 53 ->
+  val (vox_alt f v) = (IZR f * bpow radix2 (25 - v))%R /\ fin (vox_alt f v).
+Proof. exact vox_alt_exact. Qed.
+Print Assumptions C17_voxel_faces_exact.
+
+Theorem C17_forward_is_contiguous_run : forall v f oz (mx mn : pfloat), 0 <= v <= 35 -> Z.abs f < 2 ^ 52 -> 0 <= oz ->
+  let lo := calc_bit_index (vox_alt f v) oz mx mn in
+  let hi := calc_bit_index (vox_alt (f + 1) v) oz mx mn in
+  0 <= lo <= hi /\ hi < 2 ^ oz /\ NoDup (vid_to_bit v f oz mx mn) /\ forall x, In x (vid_to_bit v f oz mx mn) <-> lo <= x <= hi.
+Proof. exact vid_to_bit_run. Qed.
+Print Assumptions C17_forward_is_contiguous_run.
+
+(* coverage in the code's own terms: every float64 altitude between the two faces of the voxel is given (by calcBitIndex) a cell of the run *)
+Theorem C17_forward_covers_voxel : forall v f oz (mx mn a : pfloat), 0 <= v <= 35 -> Z.abs f < 2 ^ 52 -> 0 <= oz ->
+  geF a (vox_alt f v) = true -> geF (vox_alt (f + 1) v) a = true -> In (calc_bit_index a oz mx mn) (vid_to_bit v f oz mx mn).
+Proof. exact vid_to_bit_covers. Qed.
+Print Assumptions C17_forward_covers_voxel.
+
+(* ---------- 4. the exact-arithmetic twin (the same loop over the reals): the index is the clamped floor of the normalised altitude;
+   altitudes outside the range are clamped to the first / last cell; the run covers the voxel ---------- *)
+Theorem C17_exact_twin_is_clamped_floor : forall alt n mx mn, 0 <= n -> (mn < mx)%R ->
+  calcR alt n mx mn = clampZ 0 (2 ^ n - 1) (Zfloor ((alt - mn) / (mx - mn) * IZR (2 ^ n))).
+Proof. exact calcR_exact. Qed.
+Print Assumptions C17_exact_twin_is_clamped_floor.
+
+Theorem C17_exact_run_covers_voxel : forall lo hi a n mx mn, 0 <= n -> (mn < mx)%R -> (lo <= a <= hi)%R ->
+  calcR lo n mx mn <= calcR a n mx mn <= calcR hi n mx mn /\
+  0 <= calcR a n mx mn < 2 ^ n /\
+  ((mn <= a < mx)%R -> in_cell (calcR a n mx mn) n mx mn a) /\
+  ((a < mn)%R -> calcR a n mx mn = 0) /\ ((mx <= a)%R -> calcR a n mx mn = 2 ^ n - 1).
+Proof. exact run_covers. Qed.
+Print Assumptions C17_exact_run_covers_voxel.
+
+(* the integer reference evaluated by the run-time checker on the floats' dyadic values IS that twin *)
+Theorem C17_reference_is_exact_twin : forall a mn mx n, 0 <= n -> (dval mn < dval mx)%R ->
+  idx_ref a mn mx n = calcR (dval a) n (dval mx) (dval mn).
+Proof. exact idx_ref_is_calcR. Qed.
+Print Assumptions C17_reference_is_exact_twin.
+Theorem C17_dyadic_pair_is_value : forall x d, dyadic x = Some d -> val x = dval d /\ fin x.
+Proof. exact dyadic_val. Qed.
+Print Assumptions C17_dyadic_pair_is_value.
+Theorem C17_reference_run_covers_voxel : forall v f oz (dmn dmx : dy) (r : R), 0 <= oz -> (dval dmn < dval dmx)%R ->
+  (dval (vox_dy f v) <= r <= dval (vox_dy (f + 1) v))%R -> (dval dmn <= r < dval dmx)%R ->
+  let '(lo, hi) := fwd_ref v f oz dmn dmx in exists i, lo <= i <= hi /\ in_cell i oz (dval dmx) (dval dmn) r.
+Proof. exact fwd_ref_covers. Qed.
+Print Assumptions C17_reference_run_covers_voxel.
+
+(* ---------- 5. float model = exact twin whenever the borders are representable: bounds a 2^e < b 2^e with |a| 2^zoom, |b| 2^zoom < 2^51
+   (all ranges +-2^k, [0,500], [-256,768], integer bounds below 2^16 at every zoom up to 35, ...), every finite altitude ---------- *)
+Theorem C17_float_equals_exact_on_dyadic_ranges : forall (alt mx mn : pfloat) (a b e zoom : Z),
+  fin alt -> fin mx -> fin mn -> val mn = (IZR a * bpow radix2 e)%R -> val mx = (IZR b * bpow radix2 e)%R -> a < b ->
+  0 <= zoom -> Z.abs a * 2 ^ zoom < 2 ^ 51 -> Z.abs b * 2 ^ zoom < 2 ^ 51 -> -1074 <= e - zoom -> e + 54 <= 1024 ->
+  calc_bit_index alt zoom mx mn = clampZ 0 (2 ^ zoom - 1) (Zfloor ((val alt - val mn) / (val mx - val mn) * IZR (2 ^ zoom))).
+Proof. exact calc_bit_index_dyadic_exact. Qed.
+Print Assumptions C17_float_equals_exact_on_dyadic_ranges.
+
+Theorem C17_forward_equals_reference_on_dyadic_ranges : forall v f oz (mx mn : pfloat) (a b e : Z),
+  0 <= v <= 35 -> Z.abs f < 2 ^ 52 -> 0 <= oz ->
+  fin mx -> fin mn -> val mn = (IZR a * bpow radix2 e)%R -> val mx = (IZR b * bpow radix2 e)%R -> a < b ->
+  Z.abs a * 2 ^ oz < 2 ^ 51 -> Z.abs b * 2 ^ oz < 2 ^ 51 -> -1074 <= e - oz -> e + 54 <= 1024 ->
+  let '(lo, hi) := fwd_ref v f oz (a, e) (b, e) in
+  NoDup (vid_to_bit v f oz mx mn) /\ forall x, In x (vid_to_bit v f oz mx mn) <-> lo <= x <= hi.
+Proof. exact vid_to_bit_dyadic_exact. Qed.
+Print Assumptions C17_forward_equals_reference_on_dyadic_ranges.
+
+(* On other ranges the float borders carry rounding errors and the float answer can differ from the exact one at a cell border: refuted with a
+   witness (range [-1, 1+2^-52], voxel 20/0 = altitudes [0,32), zoom 1: the code emits [1], the exact run is 0..1). The run-time check counts
+   such cases under the finding class bit_rounding when the float answer is within 2^-45 (|min|+|max|) of the exact border, and reports
+   anything farther away as a violation; that error bound itself is validated on every run, not proved. *)
+Theorem C17_float_equals_exact_everywhere_refuted :
+  exists v f oz (mx mn : pfloat) dmn dmx,
+    dyadic mn = Some dmn /\ dyadic mx = Some dmx /\ range_ok dmn dmx = true /\ (0 <= v <= 35 /\ - 2 ^ v <= f < 2 ^ v) /\
+    vid_to_bit v f oz mx mn = [1] /\ fwd_ref v f oz dmn dmx = (0, 1) /\ band_fwd v f oz dmn dmx 1 1 = true.
+Proof. exact float_differs_witness. Qed.
+Print Assumptions C17_float_equals_exact_everywhere_refuted.
+
+(* ---------- 6. maxHeight < minHeight is an error in both directions, for any horizontal conversion ---------- *)
+Theorem C17_reversed_heights_error_forward : forall hkeys s r outH outV (mx mn : pfloat),
+  (mx <? mn)%float = true -> ext_to_qv hkeys (s :: r) outH outV mx mn = Err /\ sid_to_qv hkeys (s :: r) outH outV mx mn = Err.
+Proof. exact reversed_heights_forward. Qed.
+Print Assumptions C17_reversed_heights_error_forward.
+
+Theorem C17_reversed_heights_error_reverse : forall hids l outH outV,
+  (exists q, In q l /\ (q_max q <? q_min q)%float = true) ->
+  qv_to_ext hids l outH outV = Some Err \/ qv_to_ext hids l outH outV = None.   (* None: an earlier element has a non-finite bound *)
+Proof. exact qv_to_ext_reversed_heights. Qed.
+Print Assumptions C17_reversed_heights_error_reverse.
+
+(* ---------- 7. reverse direction: the vertical index of a bound is its exact floor; the emitted IDs are the contiguous run between the
+   indices of the cell's two (computed) bounds and cover every altitude between them ---------- *)
+Theorem C17_vertical_index_is_exact_floor : forall (a : pfloat) oz, 0 <= oz <= 35 -> alt_ok a oz ->
+  f_f a oz = Some (Zfloor (val a * bpow radix2 (oz - 25))).
+Proof. exact f_f_exact. Qed.
+Print Assumptions C17_vertical_index_is_exact_floor.
+
+Theorem C17_reverse_is_contiguous_run_covering_the_cell : forall vz k oz (mx mn : pfloat),
+  0 <= vz <= 35 -> 0 <= oz <= 35 -> Z.abs k < 2 ^ 52 -> fin mx -> fin mn -> (val mn <= val mx)%R ->
+  let h := cell_height vz mx mn in
+  let blo := cell_alt k h mn in let bhi := cell_alt (k + 1) h mn in
+  fin (mx - mn)%float -> fin h -> fin (of_Z k * h)%float -> fin (of_Z (k + 1) * h)%float -> alt_ok blo oz -> alt_ok bhi oz ->
+  let lo := Zfloor (val blo * bpow radix2 (oz - 25)) in
+  let hi := Zfloor (val bhi * bpow radix2 (oz - 25)) in
+  bit_to_vid vz k oz mx mn = Some (map (vstr oz) (vid_run hi lo)) /\
+  lo <= hi /\
+  (forall x, In x (vid_run hi lo) <-> lo <= x <= hi) /\
+  (forall a : R, (val blo <= a <= val bhi)%R -> lo <= Zfloor (a * bpow radix2 (oz - 25)) <= hi).
+Proof. exact bit_to_vid_run. Qed.
+Print Assumptions C17_reverse_is_contiguous_run_covering_the_cell.
+
+(* ---------- 8. the exported conversions in height-range mode, for any horizontal conversion ---------- *)
+Theorem C17_api_forward_pairs : forall hkeys outH outV (mx mn : pfloat), (mn <? mx)%float = true -> forall ids gs,
+  ext_to_qv hkeys ids outH outV mx mn = Ok gs ->
+  quadkey_check_zoom outH outV = true /\
+  (forall s, In s ids -> exists i, parse_eid s = Some i /\ ext_check_zoom (eh i) (ev i) = true) /\
+  (forall q v, In (q, v) (List.concat gs) <->
+     exists s i, In s ids /\ parse_eid s = Some i /\ In q (hkeys (eh i) (ex i) (ey i) outH) /\ In v (vid_to_bit (ev i) (ef i) outV mx mn)).
+Proof. exact ext_to_qv_pairs. Qed.
+Print Assumptions C17_api_forward_pairs.
+
+Theorem C17_api_reverse_element : forall hids q outH outV r, (q_min q <? q_max q)%float = true ->
+  from_qv_one hids q outH outV = Some (Ok r) ->
+  quadkey_check_zoom (q_hz q) (q_vz q) = true /\ q_key q <= qkey_limit /\ q_idx q <= 2 ^ (q_vz q + 1) /\
+  exists vs, bit_to_vid (q_vz q) (q_idx q) outV (q_max q) (q_min q) = Some vs /\
+             forall id, In id r <-> exists hs v, In hs (hids (q_hz q) (q_key q) outH) /\ In v vs /\ id = (hs ++ "/" ++ v)%string.
+Proof. exact from_qv_one_spec. Qed.
+Print Assumptions C17_api_reverse_element.
+
+(* ---------- 9. the run-time checkers decide the specification ---------- *)
+Theorem C17_run_checker_sound : forall obs lo hi, check_run obs lo hi = true -> lo <= hi /\ forall y, In y obs <-> lo <= y <= hi.
+Proof. exact check_run_sound. Qed.
+Print Assumptions C17_run_checker_sound.
+Theorem C17_run_checker_complete : forall obs lo hi, lo <= hi -> (forall y, In y obs <-> lo <= y <= hi) -> check_run obs lo hi = true.
+Proof. exact check_run_complete. Qed.
+Print Assumptions C17_run_checker_complete.
+Theorem C17_forward_checker_sound : forall v f oz dmn dmx obs, check_fwd v f oz dmn dmx obs = true ->
+  let '(lo, hi) := fwd_ref v f oz dmn dmx in lo <= hi /\ forall y, In y obs <-> lo <= y <= hi.
+Proof. exact check_fwd_sound. Qed.
+Print Assumptions C17_forward_checker_sound.
+Theorem C17_reverse_checker_sound : forall vz k oz dmn dmx obs, check_rev vz k oz dmn dmx obs = true ->
+  let '(lo, hi) := rev_ref vz k oz dmn dmx in lo <= hi /\ forall y, In y obs <-> lo <= y <= hi.
+Proof. exact check_rev_sound. Qed.
+Print Assumptions C17_reverse_checker_sound.
+Theorem C17_reverse_reference_is_exact : forall vz k oz dmn dmx, 0 <= vz ->
+  rev_ref vz k oz dmn dmx =
+  (Zfloor ((dval dmn + IZR k * ((dval dmx - dval dmn) / IZR (2 ^ vz))) * bpow radix2 (oz - 25)),
+   Zfloor ((dval dmn + IZR (k + 1) * ((dval dmx - dval dmn) / IZR (2 ^ vz))) * bpow radix2 (oz - 25))).
+Proof. exact rev_ref_real. Qed.
+Print Assumptions C17_reverse_reference_is_exact.
+
+(* ---------- non-vacuity ---------- *)
+(* the literals of the unit tests, and the documentation's voxel 26/51 in the range +-256 at zoom 7 *)
+Example C17_ex_calc : calc_bit_index 256 10 500 0 = 524 /\ calc_bit_index 0 10 256 (-256) = 512 /\ calc_bit_index (-200) 10 0 (-500) = 614 /\
+  calc_bit_index 2560 10 500 0 = 1023 /\ calc_bit_index (-256) 10 500 0 = 0.
+Proof. vm_compute. repeat split. Qed.
+Example C17_ex_forward : vid_to_bit 20 0 8 500 (-500) = [136; 128; 129; 130; 131; 132; 133; 134; 135] /\ vid_to_bit 13 (-6) 5 500 0 = [0] /\
+  vid_to_bit 26 51 7 256 (-256) = [70] /\ vid_to_bit 16 (-1) 4 768 (-256) = [4; 0; 1; 2; 3].
+Proof. vm_compute. repeat split. Qed.
+Example C17_ex_reverse : bit_to_vid 8 85 26 1000 0 = Some ["26/671"; "26/664"; "26/665"; "26/666"; "26/667"; "26/668"; "26/669"; "26/670"]%string.
+Proof. vm_compute. reflexivity. Qed.
+(* the hypotheses of the dyadic theorem are satisfiable: the documentation's range +-256 = (-1) 2^8 .. 1 2^8 at zoom 35 *)
+Example C17_ex_dyadic_hypotheses : fin 256%float /\ fin (-256)%float /\ val (-256)%float = (IZR (-1) * bpow radix2 8)%R /\
+  val 256%float = (IZR 1 * bpow radix2 8)%R /\ Z.abs (-1) * 2 ^ 35 < 2 ^ 51 /\ Z.abs 1 * 2 ^ 35 < 2 ^ 51 /\ -1074 <= 8 - 35 /\ 8 + 54 <= 1024.
+Proof. exact dyadic_hyps_example. Qed.
+(* the hypotheses of the reverse theorem are satisfiable (range [0,1000], cell 85 of 2^8, output zoom 26) *)
+Example C17_ex_reverse_hypotheses :
+  let h := cell_height 8 1000 0 in
+  fin 1000%float /\ fin 0%float /\ (val 0%float <= val 1000%float)%R /\ fin (1000 - 0)%float /\ fin h /\ fin (of_Z 85 * h)%float /\
+  fin (of_Z 86 * h)%float /\ alt_ok (cell_alt 85 h 0) 26 /\ alt_ok (cell_alt 86 h 0) 26.
+Proof. exact reverse_hyps_example. Qed.
